@@ -606,6 +606,14 @@ pub fn check_socket(env: &Option<SocketEnv>, h: &History, obs: &mut Obs) -> Chec
     let Some(env) = env else { return Ok(()) };
     let lines: Vec<String> = h.lines.iter().filter(|l| !l.contains(['\n', '\r'])).cloned().collect();
     obs.nontrivial = lines.len() >= 2;
+    // every other history runs while another client is connected and idle (a long-lived subscriber, say):
+    // concurrent clients are each served
+    let _idle = if lines.len() % 2 == 0 {
+        obs.class("second-client-connected");
+        std::os::unix::net::UnixStream::connect(&env.path).ok()
+    } else {
+        None
+    };
     match crate::props::e2e::phase_control_at(&env.path, &env.live, None, &lines) {
         Err(v) if v.sig == "e2e-harness" => Ok(()),
         r => r,
@@ -665,6 +673,83 @@ fn concurrent_stress(ctx: &Ctx) {
     }
 }
 
+/// Tier E2: several clients ask for the SAME value at the same moment (spin-synchronised threads) while the field
+/// holds the opposite one. Every request reports success, so the next snapshot / status must show the value.
+/// A stress over many rounds (the schedule is the machine's), not an enumeration.
+fn agreeing_setters(ctx: &Ctx, rounds: usize) {
+    use std::sync::atomic::{AtomicUsize, Ordering};
+    if ctx.failed() {
+        return;
+    }
+    let cfg = DynamicConfig::new();
+    let generation = AtomicUsize::new(0);
+    let done = AtomicUsize::new(0);
+    let workers = 4usize;
+    let mut lost: Vec<String> = Vec::new();
+    // round r: field r % 4 is set to the value want(r) by all workers at once
+    let request = |r: usize| -> (String, bool) {
+        let want = (r / 4) % 2 == 0;
+        let line = match r % 4 {
+            0 => format!(r#"{{"jsonrpc":"2.0","id":{r},"method":"set_quality","params":{{"enabled":{want}}}}}"#),
+            1 => format!(r#"{{"jsonrpc":"2.0","id":{r},"method":"set_stall_deselect","params":{{"enabled":{want}}}}}"#),
+            2 => format!(r#"{{"jsonrpc":"2.0","id":{r},"method":"set_mode","params":{{"mode":"{}"}}}}"#, if want { "classic" } else { "enhanced" }),
+            _ => format!(r#"{{"jsonrpc":"2.0","id":{r},"method":"set_conn_timeout","params":{{"ms":{}}}}}"#, if want { 2000 } else { 3000 }),
+        };
+        (line, want)
+    };
+    std::thread::scope(|s| {
+        for _ in 0..workers {
+            let cfg = cfg.clone();
+            let (generation, done) = (&generation, &done);
+            s.spawn(move || {
+                for r in 1..=rounds {
+                    while generation.load(Ordering::Acquire) < r {
+                        std::hint::spin_loop();
+                    }
+                    let (line, _) = request(r);
+                    let _ = dispatch(&cfg, None, None, &line);
+                    done.fetch_add(1, Ordering::AcqRel);
+                }
+            });
+        }
+        for r in 1..=rounds {
+            let (_, want) = request(r);
+            // the field holds the opposite value
+            match r % 4 {
+                0 => cfg.set_quality_enabled(!want),
+                1 => cfg.set_stall_deselect(!want),
+                2 => cfg.set_mode(if want { srtla_core::SchedulingMode::Enhanced } else { srtla_core::SchedulingMode::Classic }),
+                _ => {
+                    cfg.set_conn_timeout_ms(if want { 3000 } else { 2000 });
+                }
+            }
+            done.store(0, Ordering::Release);
+            generation.store(r, Ordering::Release);
+            while done.load(Ordering::Acquire) < workers {
+                std::hint::spin_loop();
+            }
+            let snap = cfg.snapshot();
+            let ok = match r % 4 {
+                0 => snap.quality_enabled == want,
+                1 => snap.stall_deselect == want,
+                2 => snap.mode.is_classic() == want,
+                _ => snap.conn_timeout_ms == if want { 2000 } else { 3000 },
+            };
+            if !ok && lost.len() < 3 {
+                lost.push(request(r).0);
+            }
+        }
+    });
+    ctx.extra("agreeing_setters", json!({"rounds": rounds, "threads": workers, "lost_sets": lost.len()}));
+    if let Some(l) = lost.first() {
+        ctx.report_violation(
+            "agreeing-setters",
+            &crate::rt::Violation { sig: "concurrent-set-lost".into(), msg: format!("{workers} clients sent {l} at the same moment, every request was answered, the next snapshot does not show the value") },
+            json!({"stress": true, "line": l}),
+        );
+    }
+}
+
 #[derive(Default)]
 struct PartStatsLite {
     evaluations: u64,
@@ -681,6 +766,20 @@ pub fn run(ctx: &Ctx) -> &'static str {
             || {
                 let env = SocketEnv::new(99);
                 ctx.replay_case::<History, _>("socket", &file, &body, |c, o| check_socket(&env, c, o))
+            };
+        // a stress finding is replayed by running the stress again (the schedule cannot be pinned)
+        let part = body["part"].as_str().map(String::from).unwrap_or_default();
+        let done = done
+            || match part.as_str() {
+                "agreeing-setters" => {
+                    agreeing_setters(ctx, 400_000);
+                    true
+                }
+                "concurrent-stress" => {
+                    concurrent_stress(ctx);
+                    true
+                }
+                _ => false,
             };
         if !done {
             eprintln!("replay {}: unknown part", file.display());
@@ -723,6 +822,7 @@ pub fn run(ctx: &Ctx) -> &'static str {
     if ctx.tier == Tier::Thorough {
         concurrent_stress(ctx);
     }
+    agreeing_setters(ctx, ctx.tier.pick(40_000, 2_000_000));
     crate::props::e2e::run(ctx, crate::props::e2e::Phase::Control, ctx.tier.pick(1, 4));
     if ctx.tier == Tier::Thorough {
         crate::fuzzrun::campaign(ctx, "c18_control", 300);
